@@ -250,8 +250,8 @@ func (fr *frame) lockExit(reach *Term, h *Heap) {
 	}
 	for _, k := range sortedKeys(fr.w.heapSort) {
 		if strings.HasPrefix(k, "LKw:") || strings.HasPrefix(k, "LKr:") {
-			if h.get(k) == fr.entry.get(k) {
-				continue
+			if h.get(k) == fr.entry.get(k) || k == ownKey {
+				continue // (ownership of pooled objects may be handed to the caller: see the owned() builtin)
 			}
 			x := Sym(freshBinder("m"), SInt)
 			fr.vc.oblige("lock", fmt.Sprintf("lock/%s/balanced:%s", relName(fr.fn), k), []string{"C14"}, reach,
